@@ -349,3 +349,288 @@ theorem stall_bounded_olla_pinned_partial {α : Type} (T : Int) (hT : 0 ≤ T) (
     ∃ o, (ollaLoop .pinned T st none now s).outcome = some o ∧
       silenceBounded T now (times (ollaLoop .pinned T st none now s).out) (ollaLoop .pinned T st none now s).endT = true :=
   poll_bounded_partial T hT st s now hlive
+
+/-! ### Client abort: nothing more is written, and the loop ends within the engine's bound -/
+
+private theorem nothingAfter_append {α : Type} (t : Int) (a b : Trace α) :
+    nothingAfter t (a ++ b) = (nothingAfter t a && nothingAfter t b) := by simp [nothingAfter]
+
+private theorem nothingAfter_emit {α : Type} (st : Bool) (t u : Int) (b : List α) (h : u ≤ t) :
+    nothingAfter t (emitChunk st u b) = true := by
+  cases st <;> simp [nothingAfter, emitChunk, h]
+
+private theorem maxT_of_le {a b : Int} (h : a ≤ b) : maxT a b = b := by simp [maxT, h]
+
+private theorem not_aborted_le {a : Abort} {t : Int} (h : abortedBefore (some a) t = false) : t ≤ a.t := by
+  simp [abortedBefore] at h; exact h
+
+private theorem giveUp_sherpa_end {α : Type} (T grace : Int) (hgr : 0 ≤ grace) (a : Abort) (now : Int) (hnow : now ≤ a.t) :
+    ∃ o, (giveUp (α := α) (sherpaCancel grace) T (some a) now).outcome = some o ∧
+      (giveUp (α := α) (sherpaCancel grace) T (some a) now).endT ≤ a.t + grace := by
+  unfold giveUp
+  simp only
+  split
+  · refine ⟨.clientGone, rfl, ?_⟩
+    simp only [sherpaCancel, maxT_of_le hnow]
+    cases a.readFails with
+    | none => simp
+    | some d => simp only [minT]; split <;> omega
+  · exact ⟨.readTimeout, rfl, by simp only; omega⟩
+
+private theorem watch_abort_sherpa {α : Type} (T grace : Int) (hgr : 0 ≤ grace) (st : Bool) (a : Abort) :
+    ∀ (s : Sched α) (now : Int), now ≤ a.t →
+      nothingAfter a.t (watchLoop (sherpaCancel grace) T st (some a) now s).out = true ∧
+      ∃ o, (watchLoop (sherpaCancel grace) T st (some a) now s).outcome = some o ∧
+        (watchLoop (sherpaCancel grace) T st (some a) now s).endT ≤ a.t + grace
+  | [], now, hnow => by
+    simp only [watchLoop, giveUp_out]
+    exact ⟨by simp [nothingAfter], giveUp_sherpa_end T grace hgr a now hnow⟩
+  | (g, ev) :: rest, now, hnow => by
+    unfold watchLoop
+    split
+    · rename_i hc
+      have hle := not_aborted_le hc.2
+      cases ev with
+      | chunk b =>
+        obtain ⟨h1, o, ho, he⟩ := watch_abort_sherpa T grace hgr st a rest (now + g) hle
+        refine ⟨?_, o, by simpa [push_outcome] using ho, by simpa [push_endT] using he⟩
+        simp only [push_out, nothingAfter_append, nothingAfter_emit st a.t (now + g) b hle, h1, Bool.and_self]
+      | eof => exact ⟨by simp [nothingAfter], .complete, rfl, by simp only; omega⟩
+      | err => exact ⟨by simp [nothingAfter], .upstreamError, rfl, by simp only; omega⟩
+      | stallForever =>
+        simp only [giveUp_out]
+        exact ⟨by simp [nothingAfter], giveUp_sherpa_end T grace hgr a now hnow⟩
+    · simp only [giveUp_out]
+      exact ⟨by simp [nothingAfter], giveUp_sherpa_end T grace hgr a now hnow⟩
+
+/-- **Client abort propagates (sherpa)**: once the client is gone (at `a.t`, not before the loop started)
+    nothing further is written, and the loop returns no later than `a.t + grace` — for every schedule and
+    whatever the transport does with the cancelled read (`a.readFails` arbitrary, even "stays blocked").
+    Oracle assumption built into the model: the cancelled upstream read never returns DATA again. -/
+theorem abort_propagates_sherpa {α : Type} (T grace : Int) (hgr : 0 ≤ grace) (st : Bool) (a : Abort) (s : Sched α) (now : Int)
+    (hnow : now ≤ a.t) :
+    nothingAfter a.t (sherpaLoop T grace st (some a) now s).out = true ∧
+    ∃ o, (sherpaLoop T grace st (some a) now s).outcome = some o ∧ (sherpaLoop T grace st (some a) now s).endT ≤ a.t + grace :=
+  watch_abort_sherpa T grace hgr st a s now hnow
+
+private theorem giveUp_olla_end {α : Type} (T : Int) (a : Abort) (d : Int) (hd : a.readFails = some d) (hd0 : 0 ≤ d) (now : Int) (hnow : now ≤ a.t) :
+    ∃ o, (giveUp (α := α) (ollaFixedCancel T) T (some a) now).outcome = some o ∧
+      (giveUp (α := α) (ollaFixedCancel T) T (some a) now).endT ≤ a.t + d := by
+  unfold giveUp
+  simp only
+  split
+  · simp only [ollaFixedCancel, hd, maxT_of_le hnow]
+    split
+    · exact ⟨.clientGone, rfl, by simp⟩
+    · exact ⟨.readTimeout, rfl, by simp only; omega⟩
+  · exact ⟨.readTimeout, rfl, by simp only; omega⟩
+
+private theorem watch_abort_olla {α : Type} (T : Int) (st : Bool) (a : Abort) (d : Int) (hd : a.readFails = some d) (hd0 : 0 ≤ d) :
+    ∀ (s : Sched α) (now : Int), now ≤ a.t →
+      nothingAfter a.t (watchLoop (ollaFixedCancel T) T st (some a) now s).out = true ∧
+      ∃ o, (watchLoop (ollaFixedCancel T) T st (some a) now s).outcome = some o ∧
+        (watchLoop (ollaFixedCancel T) T st (some a) now s).endT ≤ a.t + d
+  | [], now, hnow => by
+    simp only [watchLoop, giveUp_out]
+    exact ⟨by simp [nothingAfter], giveUp_olla_end T a d hd hd0 now hnow⟩
+  | (g, ev) :: rest, now, hnow => by
+    unfold watchLoop
+    split
+    · rename_i hc
+      have hle := not_aborted_le hc.2
+      cases ev with
+      | chunk b =>
+        obtain ⟨h1, o, ho, he⟩ := watch_abort_olla T st a d hd hd0 rest (now + g) hle
+        refine ⟨?_, o, by simpa [push_outcome] using ho, by simpa [push_endT] using he⟩
+        simp only [push_out, nothingAfter_append, nothingAfter_emit st a.t (now + g) b hle, h1, Bool.and_self]
+      | eof => exact ⟨by simp [nothingAfter], .complete, rfl, by simp only; omega⟩
+      | err => exact ⟨by simp [nothingAfter], .upstreamError, rfl, by simp only; omega⟩
+      | stallForever =>
+        simp only [giveUp_out]
+        exact ⟨by simp [nothingAfter], giveUp_olla_end T a d hd hd0 now hnow⟩
+    · simp only [giveUp_out]
+      exact ⟨by simp [nothingAfter], giveUp_olla_end T a d hd hd0 now hnow⟩
+
+private theorem blocked_end {α : Type} (a : Abort) (d : Int) (hd : a.readFails = some d) (now : Int) (hnow : now ≤ a.t) :
+    (blocked (α := α) (some a) now).outcome = some .clientGone ∧ (blocked (α := α) (some a) now).endT = a.t + d := by
+  simp [blocked, hd, maxT_of_le hnow]
+
+private theorem poll_abort {α : Type} (T : Int) (st : Bool) (a : Abort) (d : Int) (hd : a.readFails = some d) (hd0 : 0 ≤ d) :
+    ∀ (s : Sched α) (late : Bool) (now : Int), now ≤ a.t →
+      nothingAfter a.t (pollLoop T st (some a) late now s).out = true ∧
+      ∃ o, (pollLoop T st (some a) late now s).outcome = some o ∧ (pollLoop T st (some a) late now s).endT ≤ a.t + d
+  | s, true, now, hnow => by
+    cases s <;> exact ⟨by simp [pollLoop, nothingAfter], .readTimeout, by simp [pollLoop], by simp [pollLoop]; omega⟩
+  | [], false, now, hnow => by
+    obtain ⟨h1, h2⟩ := blocked_end (α := α) a d hd now hnow
+    simp only [pollLoop, blocked_out]
+    exact ⟨by simp [nothingAfter], .clientGone, h1, by omega⟩
+  | (g, ev) :: rest, false, now, hnow => by
+    obtain ⟨hb1, hb2⟩ := blocked_end (α := α) a d hd now hnow
+    unfold pollLoop
+    split
+    · simp only [blocked_out]
+      exact ⟨by simp [nothingAfter], .clientGone, hb1, by omega⟩
+    · rename_i hc
+      have hle : now + g ≤ a.t := not_aborted_le (by simpa using hc)
+      cases ev with
+      | chunk b =>
+        obtain ⟨h1, o, ho, he⟩ := poll_abort T st a d hd hd0 rest (decide (T ≤ g)) (now + g) hle
+        refine ⟨?_, o, by simpa [push_outcome] using ho, by simpa [push_endT] using he⟩
+        simp only [push_out, nothingAfter_append, nothingAfter_emit st a.t (now + g) b hle, h1, Bool.and_self]
+      | eof => exact ⟨by simp [nothingAfter], .complete, rfl, by simp only; omega⟩
+      | err => exact ⟨by simp [nothingAfter], .upstreamError, rfl, by simp only; omega⟩
+      | stallForever =>
+        simp only [blocked_out]
+        exact ⟨by simp [nothingAfter], .clientGone, hb1, by omega⟩
+
+/-- **Client abort propagates (olla, pinned or fixed)** — UNDER THE ORACLE ASSUMPTION that the cancelled
+    context makes the pending `Body.Read` fail `d ≥ 0` after the abort (net/http's transport does that; it
+    is not modelled): nothing further is written and the loop returns by `a.t + d`. -/
+theorem abort_propagates_olla {α : Type} (v : Variant) (T : Int) (st : Bool) (a : Abort) (d : Int)
+    (horacle : a.readFails = some d) (hd0 : 0 ≤ d) (s : Sched α) (now : Int) (hnow : now ≤ a.t) :
+    nothingAfter a.t (ollaLoop v T st (some a) now s).out = true ∧
+    ∃ o, (ollaLoop v T st (some a) now s).outcome = some o ∧ (ollaLoop v T st (some a) now s).endT ≤ a.t + d := by
+  cases v
+  · exact poll_abort T st a d horacle hd0 s false now hnow
+  · exact watch_abort_olla T st a d horacle hd0 s now hnow
+
+/-- Why the oracle is needed for the pinned olla loop: if the transport did NOT fail the read, a client
+    abort during a stall would never be noticed (the contexts are only polled between reads). -/
+theorem olla_abort_needs_transport_witness {α : Type} (T : Int) (st : Bool) (at_ g : Int) :
+    (ollaLoop (α := α) .pinned T st (some ⟨at_, none⟩) 0 [(g, Ev.stallForever)]).outcome = none := by
+  simp [ollaLoop, pollLoop, blocked]
+
+/-! ### Side conditions on the regenerated tables (core.AutoDetectStreamingMode run over its whole domain) -/
+
+set_option maxRecDepth 200000 in
+open Olla.Gen.Streaming in
+/-- Under profiles `auto` and `streaming`, `text/event-stream` and `application/x-ndjson` responses (any
+    spelling: charset parameter, upper case) are streamed — whatever the client asked for. -/
+theorem gen_sse_ndjson_streamed :
+    streamDecision.all (fun r => !((r.1 == "auto" || r.1 == "streaming") && (r.2.1 == "EventStream" || r.2.1 == "NDJSON")) || r.2.2.2.2.2) = true := by
+  decide
+
+set_option maxRecDepth 200000 in
+open Olla.Gen.Streaming in
+/-- Profile `standard` never streams (so, by `no_flush_when_buffered`, never flushes). -/
+theorem gen_standard_never_streams :
+    streamDecision.all (fun r => !(r.1 == "standard") || !r.2.2.2.2.2) = true := by decide
+
+set_option maxRecDepth 200000 in
+open Olla.Gen.Streaming in
+/-- Profile `streaming` always streams. -/
+theorem gen_streaming_always_streams :
+    streamDecision.all (fun r => !(r.1 == "streaming") || r.2.2.2.2.2) = true := by decide
+
+/-- The content types the property calls binary. -/
+def binaryNames : List String :=
+  ["PDF", "ZIP", "GZIP", "TAR", "RAR", "7Z", "OctetStream", "Excel", "WordDOCX", "OfficeDocument", "WordDOC", "PowerPoint",
+   "ImagePNG", "ImageJPEG", "ImageWebP", "ImageSVG", "VideoMP4", "VideoWebM",
+   "PrefixImage", "PrefixVideo", "PrefixAudio", "PrefixFont", "PrefixModel"]
+
+set_option maxRecDepth 200000 in
+open Olla.Gen.Streaming in
+/-- Under `auto`, binary types are buffered unless the client asked for a stream: the decision IS the
+    client's stream flag. -/
+theorem gen_binary_buffered_unless_asked :
+    streamDecision.all (fun r => !(r.1 == "auto" && binaryNames.contains r.2.1) || (r.2.2.2.2.2 == r.2.2.2.2.1)) = true := by
+  decide
+
+set_option maxRecDepth 200000 in
+open Olla.Gen.Streaming in
+/-- Under `auto` everything that is not binary (text, JSON, the streaming formats, no or an unknown
+    content type) is streamed. -/
+theorem gen_auto_nonbinary_streams :
+    streamDecision.all (fun r => !(r.1 == "auto" && !binaryNames.contains r.2.1) || r.2.2.2.2.2) = true := by decide
+
+set_option maxRecDepth 200000 in
+open Olla.Gen.Streaming in
+/-- The table covers every declared `constants.ContentType*` under every profile and both client flags. -/
+theorem gen_table_covers_domain :
+    profiles.all (fun p => contentTypeNames.all (fun n => [false, true].all (fun cs =>
+      streamDecision.any (fun r => r.1 == p && r.2.1 == n && r.2.2.2.2.1 == cs)))) = true := by decide
+
+set_option maxRecDepth 200000 in
+/-- The four content types the timing harness uses are tabulated (the driver's lookups cannot miss). -/
+theorem gen_harness_types_tabulated :
+    ["auto", "streaming", "standard"].all (fun p =>
+      ["text/event-stream", "application/x-ndjson", "application/json", "application/octet-stream"].all (fun ct =>
+        (streams p ct false).isSome)) = true := by decide
+
+open Olla.Gen.Streaming in
+/-- Read-timeout defaults are positive, a configured value is passed through unchanged, an unknown
+    profile behaves like `auto`, and the two engines agree on the client-disconnect thresholds. -/
+theorem gen_timeouts_and_thresholds :
+    0 < defaultReadTimeoutNs ∧ 0 < baseGetReadTimeoutZeroNs ∧ 0 < ollaGetReadTimeoutZeroNs ∧ 0 < configDefaultReadTimeoutNs ∧
+    sherpaGetReadTimeout150Ns = 150000000 ∧ ollaGetReadTimeout150Ns = 150000000 ∧ unknownProfileIsAuto = true ∧
+    0 < sherpaDisconnectBytes ∧ 0 < sherpaDisconnectNs ∧
+    sherpaDisconnectBytes = ollaDisconnectBytes ∧ sherpaDisconnectNs = ollaDisconnectNs := by decide
+
+/-! ### The parametric theorems at the regenerated values -/
+
+/-- Nanoseconds: sherpa's 1 s grace (a literal inside performTimedRead — hand-copied, compared by the
+    timing harness with slack). -/
+def sherpaGraceNs : Int := 1000000000
+
+/-- With the timeout the production wiring passes by default (and with each engine's own fallback) a
+    stalled backend ends a sherpa request within that timeout of the last progress. -/
+theorem stall_bounded_sherpa_gen {α : Type} (st : Bool) (s : Sched α) (now : Int) :
+    ∀ T ∈ [Olla.Gen.Streaming.configDefaultReadTimeoutNs, Olla.Gen.Streaming.defaultReadTimeoutNs, Olla.Gen.Streaming.baseGetReadTimeoutZeroNs],
+      ∃ o, (sherpaLoop T sherpaGraceNs st none now s).outcome = some o ∧
+        silenceBounded T now (times (sherpaLoop T sherpaGraceNs st none now s).out) (sherpaLoop T sherpaGraceNs st none now s).endT = true := by
+  intro T hT
+  have : 0 ≤ T := by
+    simp only [List.mem_cons, List.not_mem_nil, or_false] at hT
+    rcases hT with h | h | h <;> subst h <;> decide
+  exact stall_bounded_sherpa T sherpaGraceNs this st s now
+
+theorem stall_bounded_olla_fixed_gen {α : Type} (st : Bool) (s : Sched α) (now : Int) :
+    ∀ T ∈ [Olla.Gen.Streaming.configDefaultReadTimeoutNs, Olla.Gen.Streaming.defaultReadTimeoutNs, Olla.Gen.Streaming.ollaGetReadTimeoutZeroNs],
+      ∃ o, (ollaLoop .fixed T st none now s).outcome = some o ∧
+        silenceBounded T now (times (ollaLoop .fixed T st none now s).out) (ollaLoop .fixed T st none now s).endT = true := by
+  intro T hT
+  have : 0 ≤ T := by
+    simp only [List.mem_cons, List.not_mem_nil, or_false] at hT
+    rcases hT with h | h | h <;> subst h <;> decide
+  exact stall_bounded_olla_fixed T this st s now
+
+/-- The pinned olla loop hangs at the shipped default timeout just the same. -/
+theorem olla_stall_witness_gen :
+    (ollaLoop (α := Nat) .pinned Olla.Gen.Streaming.configDefaultReadTimeoutNs true none 0 [(0, Ev.chunk [1]), (0, Ev.stallForever)]).outcome = none :=
+  olla_stall_witness _ (by decide) true [1] 0
+
+/-! ### Non-vacuity: concrete runs -/
+
+-- a live SSE stream: every chunk written and flushed at its arrival time, completion at EOF
+example : sherpaLoop (α := Nat) 150 1000 true none 0 [(20, .chunk [1]), (60, .chunk [2, 3]), (20, .eof)]
+    = ⟨[(20, .write [1]), (20, .flush), (80, .write [2, 3]), (80, .flush)], some .complete, 100⟩ := by decide
+-- the hypotheses of complete_delivery / pause_not_cut are satisfiable
+example : Short (α := Nat) 150 [(20, .chunk [1]), (149, .chunk [2, 3])] := by
+  intro e he; simp at he; rcases he with rfl | rfl <;> simp
+-- buffered: no flush
+example : (ollaLoop (α := Nat) .pinned 150 false none 0 [(20, .chunk [1]), (60, .chunk [2]), (20, .eof)]).out
+    = [(20, .write [1]), (80, .write [2])] := by decide
+-- a mid-body stall: sherpa and the fixed olla cut at lastProgress + T = 80 + 150; the pinned olla never returns
+example : (sherpaLoop (α := Nat) 150 1000 true none 0 [(20, .chunk [1]), (60, .chunk [2]), (0, .stallForever)]).endT = 230 := by decide
+example : (ollaLoop (α := Nat) .fixed 150 true none 0 [(20, .chunk [1]), (60, .chunk [2]), (0, .stallForever)])
+    = ⟨[(20, .write [1]), (20, .flush), (80, .write [2]), (80, .flush)], some .readTimeout, 230⟩ := by decide
+example : (ollaLoop (α := Nat) .pinned 150 true none 0 [(20, .chunk [1]), (60, .chunk [2]), (0, .stallForever)]).outcome = none := by decide
+-- a pause above the timeout: sherpa cuts at 20 + 150 and never relays the late chunk
+example : sherpaLoop (α := Nat) 150 1000 true none 0 [(20, .chunk [1]), (400, .chunk [2]), (20, .eof)]
+    = ⟨[(20, .write [1]), (20, .flush)], some .readTimeout, 170⟩ := by decide
+-- client abort at 50 during a pause: sherpa ends within the grace, olla when the transport fails the read (3 later)
+example : sherpaLoop (α := Nat) 150 1000 true (some ⟨50, some 3⟩) 0 [(20, .chunk [1]), (60, .chunk [2]), (20, .eof)]
+    = ⟨[(20, .write [1]), (20, .flush)], some .clientGone, 53⟩ := by decide
+example : sherpaLoop (α := Nat) 150 1000 true (some ⟨50, none⟩) 0 [(20, .chunk [1]), (60, .chunk [2]), (20, .eof)]
+    = ⟨[(20, .write [1]), (20, .flush)], some .clientGone, 1050⟩ := by decide
+example : ollaLoop (α := Nat) .pinned 150 true (some ⟨50, some 3⟩) 0 [(20, .chunk [1]), (60, .chunk [2]), (20, .eof)]
+    = ⟨[(20, .write [1]), (20, .flush)], some .clientGone, 53⟩ := by decide
+-- decision table lookups
+example : streams "auto" "text/event-stream" false = some true := by decide
+example : streams "standard" "text/event-stream" true = some false := by decide
+example : streams "auto" "application/octet-stream" false = some false := by decide
+example : streams "auto" "application/octet-stream" true = some true := by decide
+example : LiveAndEnding (α := Nat) 150 [(20, .chunk [1]), (60, .chunk [2]), (20, .eof)] := by simp [LiveAndEnding]
+
+end Olla.Props.C18
